@@ -288,6 +288,40 @@ def run(ctx):
             chk.ok(R4, gt.qualname, f'{k2} <- SUM({col})', detail='label/column agreement')
         else:
             chk.bad(R4, gt.qualname, f'{k2}', f'{k2} is computed from SUM({pairs.get(k2)}) instead of SUM({col})', where=f'{gt.module.relpath}:{gt.lineno}')
+    # the on-disk totals: loose = sum of stat() over every listed loose file, pack files = sum over every listed pack, index = the index file
+    frg = K.top_frame(gt)
+    want_area = {'total_size_loose': ('loose', '_list_loose'), 'total_size_packfiles_on_disk': ('packs', '_list_packs'), 'total_size_packindexes_on_disk': ('index', None)}
+    for n in walk_local(gt.node):
+        if isinstance(n, ast.Assign) and isinstance(n.targets[0], ast.Subscript) and isinstance(n.targets[0].slice, ast.Constant) and n.targets[0].slice.value in want_area:
+            key = n.targets[0].slice.value
+            area, lister = want_area[key]
+            srcs = [n.value]
+            loops_ok = True
+            if isinstance(n.value, ast.Name):
+                augs = [a for a in walk_local(gt.node) if isinstance(a, ast.AugAssign) and isinstance(a.target, ast.Name) and a.target.id == n.value.id]
+                srcs = [a.value for a in augs]
+                for a in augs:
+                    lp = a
+                    while lp is not None and not isinstance(lp, ast.For):
+                        lp = getattr(lp, '_parent', None)
+                    if lp is None or lister is None or norm(lp.iter) not in (f'self.{lister}()', f'list(self.{lister}())', f'sorted(self.{lister}())', f'set(self.{lister}())', f'tuple(self.{lister}())') or any(isinstance(x, (ast.Continue, ast.Break)) for x in ast.walk(lp)) \
+                            or any(isinstance(x, ast.If) for x in lp.body) or not isinstance(a.op, ast.Add):
+                        loops_ok = False
+                if not augs:
+                    loops_ok = False
+            okt = loops_ok and bool(srcs)
+            for v in srcs:
+                stats = [c for c in ast.walk(v) if isinstance(c, ast.Call) and isinstance(c.func, ast.Attribute) and c.func.attr == 'stat']
+                if len(stats) != 1 or not norm(v).endswith('.st_size'):
+                    okt = False
+                    continue
+                from .common import in_area as _ia
+                if not _ia(K, K.kind(stats[0].func.value, frg), area):
+                    okt = False
+            if okt:
+                chk.ok(R4, gt.qualname, f'{key} <- stat().st_size over {area}', detail='every listed file of the right area is counted once', nontrivial=False)
+            else:
+                chk.bad(R4, gt.qualname, f'{key}', f'{key} is not the sum of the file sizes (stat().st_size) of every listed entry under {area}/', where=f'{gt.module.relpath}:{n.lineno}')
     # row['size'] provenance
     for q in ('container:Container.pack_all_loose', 'container:Container.add_streamed_objects_to_pack'):
         f = prog.fn(q)
